@@ -387,6 +387,59 @@ def run(cx, rep):
                    "%s.schema returns `%s` for a type with an index signature without using the index-signature schemas: the key constraint (propertyNames) is lost, so documents with keys the validator rejects are valid against the schema" % (cname, s(r["argument"])[:80]),
                    mod.loc(r), sample={"class": cname, "return": s(r["argument"])[:80]})
         rep.floor("C02.5", "index-signature returns of %s.schema" % cname, n_ret, 2)
+    # ---------------------------------------------------------------- C02.10
+    rep.rule("C02.10", "names built by a lossy sanitiser are told apart before they key a definition")
+    # A function that strips characters (`x.replace(/[^..]+/g, ..)`) is many-to-one.  When its result becomes part of
+    # a definition name (first writer wins in the printing context), two different keys of one union - "a-b", "a_b" -
+    # share a definition and the second variant's $ref points at the first variant's schema.  Required: the method
+    # that names the variants of one union keeps a per-union record of the sanitised parts (a Map / Set / dictionary
+    # it reads and writes with the sanitised value) so that repeats get distinct names.
+    sanitisers = set()
+    for cn, c in mod.classes.items():
+        for mn, mm in c.methods.items():
+            fn_ = mm["function"]
+            if fn_.get("body") is None:
+                continue
+            for n in walk(fn_):
+                mc = method_call(n) if n["type"] == "CallExpression" else None
+                if mc and mc[1] in ("replace", "replaceAll") and mc[2] and unparen(mc[2][0]).get("type") == "RegExpLiteral" and unparen(mc[2][0])["pattern"].startswith("[^"):
+                    sanitisers.add((cn, mn))
+    for fn_name, d in mod.functions.items():
+        for n in walk(d):
+            mc = method_call(n) if n["type"] == "CallExpression" else None
+            if mc and mc[1] in ("replace", "replaceAll") and mc[2] and unparen(mc[2][0]).get("type") == "RegExpLiteral" and unparen(mc[2][0])["pattern"].startswith("[^"):
+                sanitisers.add((None, fn_name))
+    n_san = 0
+    for cn, c in sorted(mod.classes.items()):
+        for mn, mm in sorted(c.methods.items()):
+            fn_ = mm["function"]
+            if fn_.get("body") is None or (cn, mn) in sanitisers:
+                continue
+            # methods that iterate the keys of a dictionary field and (transitively) name things through a sanitiser
+            iter_keys = [n for n in walk(fn_) if n["type"] == "CallExpression" and s(n["callee"]) in ("Object.entries", "Object.keys") and s(n["arguments"][0]["expression"]).startswith("this.")] if True else []
+            if not iter_keys:
+                continue
+            reaches = False
+            for x in tsast.walk_inl(mod, cn, fn_, depth=3):
+                if x["type"] == "CallExpression":
+                    cal = s(x["callee"])
+                    if any(cal.endswith("." + sm) or cal == sm for (_c, sm) in sanitisers):
+                        reaches = True
+            if not reaches:
+                continue
+            n_san += 1
+            # collision record: a local Map / Set / null-proto dict that is both read and written in this method
+            recs = [d_["id"]["value"] for d_ in walk(fn_) if d_["type"] == "VariableDeclarator" and d_["id"].get("type") == "Identifier" and d_.get("init") is not None
+                    and unparen(d_["init"]).get("type") == "NewExpression" and s(unparen(d_["init"])["callee"]) in ("Map", "Set")]
+            used = []
+            for r_ in recs:
+                ops = {method_call(x)[1] for x in walk(fn_) if x["type"] == "CallExpression" and method_call(x) and s(method_call(x)[0]) == r_}
+                if ops & {"get", "has"} and ops & {"set", "add"}:
+                    used.append(r_)
+            rep.ob("C02.10", "%s.%s/collision-record" % (cn, mn), bool(used),
+                   "%s.%s names one definition per key through a sanitiser that drops characters and keeps no record of the names already given in this union: keys that differ only in dropped characters (\"a-b\", \"a_b\") share one definition" % (cn, mn),
+                   mod.loc(fn_), sample={"method": "%s.%s" % (cn, mn), "record": used})
+    rep.floor("C02.10", "methods naming definitions through a lossy sanitiser", n_san, 1)
     # ---------------------------------------------------------------- C02.9
     rep.rule("C02.9", "computed text is never used as a String.replace replacement pattern")
     # `s.replace(x, r)` with a STRING r interprets `$$`, `$&`, `$1`..; `$` is legal in TypeScript identifiers, so a
